@@ -20,7 +20,15 @@
 (*        top}.go  the columnar twins (same Map/Reduce objects, own key    *)
 (*        encoding, own (shard, group) replica filter)                     *)
 (*                                                                         *)
-(* Two small state machines (constant Family):                             *)
+(*   pkg/query/logical/measure/measure_analyzer.go  Analyze: the group-by   *)
+(*        METHOD ("sort" = groupSortIterator, a group is a run of          *)
+(*        consecutive points, the scan is asked for series order; "hash"   *)
+(*        = first-seen table); DistributedAnalyze + distributedPlan.Limit  *)
+(*        / Execute: the limit the node request carries                    *)
+(*   pkg/query/logical/measure/measure_plan.go  limitIterator (offset,     *)
+(*        limit), on the node and on the coordinator                       *)
+(*                                                                         *)
+(* Three small state machines (constant Family):                           *)
 (*  "agg"  rows [v, s, g1, g2] (field value, shard, two group-key tokens)  *)
 (*         are added one at a time in canonical (sorted) order, so every   *)
 (*         reachable state is one multiset of rows together with one       *)
@@ -30,6 +38,13 @@
 (*         and the final values.                                           *)
 (*  "top"  values arrive one at a time (order matters for a heap); obs     *)
 (*         holds the values a TOP-n / BOTTOM-n must return.                *)
+(*  "ord"  the measure's entity is the tag list (k1, k2): a series is one   *)
+(*         (g1, g2), rows is the ARRIVAL order of its points (every order  *)
+(*         is a state, no canonical order).  GROUP BY k1 / k2 / (k1, k2)   *)
+(*         with the method Analyze picks, over the scan order the engine   *)
+(*         delivers for that method; a client page (limit, offset) and a   *)
+(*         TOP-n over the groups; obs holds the groups, the page sizes and *)
+(*         the paged top values the plans must return.                     *)
 (* last is the history variable the replayer reads.                        *)
 (*                                                                         *)
 (* Three deviations of the pinned code from the intended design are        *)
@@ -42,11 +57,19 @@
 (*                    coordinator filters replicas by shard id alone       *)
 (*   ConcatGroupKey   formatGroupByKey hashes the tag values back to back  *)
 (*                    (no length / separator): ("a","bc") = ("ab","c")     *)
+(* Two decisions of the planner are modelled together with their wrong     *)
+(* alternative, NAMED for the same purpose (FALSE = the design, TRUE must  *)
+(* give a counterexample: the laws of family "ord" are not vacuous):       *)
+(*   StreamOnPrefix        "sort" also when the group-by tags are only a   *)
+(*                         leading prefix of the entity                    *)
+(*   NodePageIsClientPage  the node request keeps the client's page        *)
+(*                         (limit + offset) instead of "unbounded" when    *)
+(*                         group-by / aggregation is pushed down           *)
 (***************************************************************************)
 EXTENDS Integers, Sequences, FiniteSets, TLC
 
 CONSTANTS
-  Family,          \* "agg" | "top"
+  Family,          \* "agg" | "top" | "ord"
   Vals,            \* field values of family "agg"
   Shards,          \* shard ids (0 must be one of them: ScalarShardZero stamps 0)
   K1, K2,          \* tuples of strings: concretisation of the key tokens 1..Len(K1), 1..Len(K2)
@@ -55,9 +78,11 @@ CONSTANTS
   Grouped,         \* BOOLEAN: export the grouped observations too
   TopVals, MaxItems, MaxN,
   IntMax, IntMin,  \* stand for math.MaxInt64 / math.MinInt64 (sentinels of minFunc / maxFunc)
-  MeanFloorsAtOne, ScalarShardZero, ConcatGroupKey
+  MeanFloorsAtOne, ScalarShardZero, ConcatGroupKey,
+  Pages,           \* family "ord": the client pages <<limit, offset>> that are asked for
+  StreamOnPrefix, NodePageIsClientPage
 
-VARIABLES rows,    \* family "agg": sequence of [v, s, g1, g2], canonical order
+VARIABLES rows,    \* family "agg": sequence of [v, s, g1, g2], canonical order; family "ord": arrival order
           items,   \* family "top": sequence of values in arrival order
           obs,     \* what the implementation must show in this state
           last     \* the step that produced the state
@@ -210,6 +235,95 @@ AggObs(rs) ==
             gtop |-> { [n |-> n, dir |-> d, vals |-> FirstN(GroupSums(rs), n, d)] : n \in 1..MaxN, d \in {"top", "bottom"} } ]
 
 ---------------------------------------------------------------------------
+\* Family "ord": entity (k1, k2), arrival orders, group-by on a part of the entity, client pages
+Entity == <<"k1", "k2">>
+Bys == { <<"k1">>, <<"k2">>, <<"k1", "k2">> }             \* the GROUP BY tag lists
+ByName(by) == IF Len(by) = 2 THEN "k1k2" ELSE by[1]
+TagOf(r, t) == IF t = "k1" THEN r.g1 ELSE r.g2
+PKey(r, by) == [i \in 1..Len(by) |-> TagOf(r, by[i])]     \* a group is a tuple of tokens (intended design)
+PKeys(rs, by) == { PKey(rs[i], by) : i \in 1..Len(rs) }
+OfPKey(rs, by, k) == SelectSeq(rs, LAMBDA r : PKey(r, by) = k)
+PG1(by, k) == IF by[1] = "k1" THEN k[1] ELSE 0            \* 0: the tag is not part of the key
+PG2(by, k) == IF by[Len(by)] = "k2" THEN k[Len(by)] ELSE 0
+
+\* the scan in series order (index.OrderByTypeSeries, banyand/measure queryResult.Less: by the position of the
+\* series in the series-index answer, then by time): series by series, NOT sorted by the entity values.  The
+\* position of a series is taken to be its creation order (first arrival).
+RECURSIVE BySeries(_)
+BySeries(rs) ==
+  IF rs = <<>> THEN <<>>
+  ELSE LET same(r) == r.g1 = rs[1].g1 /\ r.g2 = rs[1].g2
+           other(r) == ~same(r)
+       IN SelectSeq(rs, same) \o BySeries(SelectSeq(rs, other))
+\* groupBy.hash: the groups in first-seen order, each with all its rows
+RECURSIVE FirstSeen(_, _)
+FirstSeen(rs, by) ==
+  IF rs = <<>> THEN <<>>
+  ELSE LET k == PKey(rs[1], by)
+       IN <<OfPKey(rs, by, k)>> \o FirstSeen(SelectSeq(rs, LAMBDA r : PKey(r, by) # k), by)
+\* groupSortIterator: a group is a maximal run of consecutive rows with the same key
+RECURSIVE Runs(_, _)
+Runs(rs, by) ==
+  IF rs = <<>> THEN <<>>
+  ELSE LET k == PKey(rs[1], by)
+           n == CHOOSE n \in 1..Len(rs) : /\ \A i \in 1..n : PKey(rs[i], by) = k
+                                          /\ (n = Len(rs) \/ PKey(rs[n + 1], by) # k)
+       IN <<SubSeq(rs, 1, n)>> \o Runs(SubSeq(rs, n + 1, Len(rs)), by)
+IsPrefix(p, q) == Len(p) <= Len(q) /\ p = SubSeq(q, 1, Len(p))
+\* measure_analyzer.go Analyze: "sort" iff the group-by tag list EQUALS the entity tag list
+Streams(by) == IF StreamOnPrefix THEN IsPrefix(by, Entity) ELSE by = Entity
+\* what groupBy hands to the aggregation on one server over the rows rs (time order = arrival order)
+PlanGroups(rs, by) == IF Streams(by) THEN Runs(BySeries(rs), by) ELSE FirstSeen(rs, by)
+
+\* the node request's limit (offset 0).  Design: unbounded (uint32(math.MaxInt) = 0xFFFFFFFF) when group-by or
+\* aggregation is pushed down, the client's page applies after the reduce.
+Unbounded == MaxRows + 1
+NodeLimit(pg) == IF NodePageIsClientPage THEN pg[1] + pg[2] ELSE Unbounded
+Take(q, n) == SubSeq(q, 1, IF Len(q) < n THEN Len(q) ELSE n)
+\* limitIterator: skip offset, pass limit
+Page(q, pg) == SubSeq(q, pg[2] + 1, IF Len(q) < pg[1] + pg[2] THEN Len(q) ELSE pg[1] + pg[2])
+PageSize(n, pg) == IF n <= pg[2] THEN 0 ELSE IF n - pg[2] < pg[1] THEN n - pg[2] ELSE pg[1]
+\* one data node (shard s): limit(aggregation[map](groupBy(scan))).  An answer row is written [s, key, blk]: blk
+\* is the run / table entry the node aggregated; its partial for function f is MapPartial(f, ValuesOf(blk)).
+NodeAnswer(rs, s, by, lim) ==
+  LET gs == Take(PlanGroups(Block(rs, s), by), lim)
+  IN [i \in 1..Len(gs) |-> [s |-> s, key |-> PKey(gs[i][1], by), blk |-> gs[i]]]
+RECURSIVE Flatten(_)
+Flatten(qq) == IF qq = <<>> THEN <<>> ELSE Head(qq) \o Flatten(Tail(qq))
+\* deduplicateAggregatedDataPointsWithShard: the first answer per (shard, group) wins
+RECURSIVE DedupSeq(_, _)
+DedupSeq(q, seen) ==
+  IF q = <<>> THEN <<>>
+  ELSE LET d == <<q[1].s, q[1].key>>
+       IN IF d \in seen THEN DedupSeq(Tail(q), seen) ELSE <<q[1]>> \o DedupSeq(Tail(q), seen \cup {d})
+\* the coordinator: groupBy.hash (first-seen order): every group with the answers that reached it, in arrival order
+RECURSIVE Gather(_)
+Gather(q) ==
+  IF q = <<>> THEN <<>>
+  ELSE LET k == q[1].key
+           mine == SelectSeq(q, LAMBDA x : x.key = k)
+       IN <<[key |-> k, blks |-> [i \in 1..Len(mine) |-> mine[i].blk]]>> \o Gather(SelectSeq(q, LAMBDA x : x.key # k))
+\* ... when every node request carries the limit lim and the nodes answer in the order so (a sequence of shards)
+Gathered(rs, by, lim, so) == Gather(DedupSeq(Flatten([i \in 1..Len(so) |-> NodeAnswer(rs, so[i], by, lim)]), {}))
+\* aggregation[reduce] of one gathered group
+ReducedVal(f, g) == Reduce(f, [i \in 1..Len(g.blks) |-> MapPartial(f, ValuesOf(g.blks[i]))])
+ShardOrders == { q \in [1..Cardinality(Shards) -> Shards] : \A i, j \in 1..Cardinality(Shards) : i # j => q[i] # q[j] }
+SumsBy(rs, by) == LET ks == SetToSeq(PKeys(rs, by)) IN [i \in 1..Len(ks) |-> SumSeq(ValuesOf(OfPKey(rs, by, ks[i])))]
+
+OrdObs(rs) ==
+  [ n |-> Len(rs), shards |-> Shards,
+    bys |-> { [by |-> ByName(by),
+               groups |-> { [g1 |-> PG1(by, k), g2 |-> PG2(by, k), res |-> Result(ValuesOf(OfPKey(rs, by, k)))] : k \in PKeys(rs, by) }] :
+              by \in Bys },
+    \* a client page: without ranking n DISTINCT groups (which ones is not specified), each with its full value;
+    \* ranks: <<m, dir, values>> = TOP / BOTTOM m over the groups' SUM, then the page
+    pages |-> UNION { LET sums == SumsBy(rs, by)
+                          g == Cardinality(PKeys(rs, by))
+                      IN { [by |-> ByName(by), lim |-> pg[1], off |-> pg[2], n |-> PageSize(g, pg),
+                            ranks |-> { <<m, d, Page(FirstN(sums, m, d), pg)>> : m \in 1..MaxN, d \in {"top", "bottom"} }] : pg \in Pages } :
+                      by \in Bys } ]
+
+---------------------------------------------------------------------------
 \* Family "top": measure_top.go TopQueue as coded.  The heap root is A least (TOP) / greatest
 \* (BOTTOM) retained element; among equal values the heap layout decides, so every choice is
 \* a possible execution.
@@ -238,7 +352,7 @@ TopObs(q) == { [n |-> n, dir |-> d, vals |-> FirstN(q, n, d)] : n \in 1..MaxN, d
 ---------------------------------------------------------------------------
 Init ==
   /\ rows = <<>> /\ items = <<>> /\ last = [op |-> "init"]
-  /\ obs = IF Family = "agg" THEN AggObs(<<>>) ELSE TopObs(<<>>)
+  /\ obs = IF Family = "agg" THEN AggObs(<<>>) ELSE IF Family = "ord" THEN OrdObs(<<>>) ELSE TopObs(<<>>)
 
 AddRow(c) ==
   /\ Family = "agg" /\ Len(rows) < MaxRows
@@ -255,7 +369,15 @@ Arrive(v) ==
   /\ last' = [op |-> "arrive", v |-> v]
   /\ UNCHANGED rows
 
-Next == (\E c \in Cell : AddRow(c)) \/ (\E v \in TopVals : Arrive(v))
+\* family "ord": the next point arrives (any cell: every arrival order is reachable)
+Point(c) ==
+  /\ Family = "ord" /\ Len(rows) < MaxRows
+  /\ rows' = Append(rows, c)
+  /\ obs' = OrdObs(rows')
+  /\ last' = [op |-> "row", v |-> c.v, s |-> c.s, g1 |-> c.g1, g2 |-> c.g2]
+  /\ UNCHANGED items
+
+Next == (\E c \in Cell : AddRow(c) \/ Point(c)) \/ (\E v \in TopVals : Arrive(v))
 Spec == Init /\ [][Next]_vars
 
 ---------------------------------------------------------------------------
@@ -304,4 +426,32 @@ TopNLaw ==
     \A keepOld \in BOOLEAN : \A H \in HeapStates(items, Len(items), n, d, keepOld) :
        /\ ValidTop(H, Elems(items), n, d)
        /\ FirstN(items, n, d) = FirstN(ValuesOf(SetToSeq(H)), n, d)
+\* ---- family "ord" ----
+\* the group-by method Analyze picks, over the scan order it asks for, yields exactly the distinct key tuples,
+\* each group with all its rows - on the whole input and on every shard's block
+GroupMethodLaw ==
+  \A by \in Bys : \A rs \in {rows} \cup { Block(rows, s) : s \in Shards } :
+    LET gs == PlanGroups(rs, by) IN
+      /\ Len(gs) = Cardinality(PKeys(rs, by))
+      /\ \A i \in 1..Len(gs) : Len(gs[i]) = Len(OfPKey(rs, by, PKey(gs[i][1], by)))
+\* a client page over the reduced groups: PageSize distinct groups, each with the value of the reference over
+\* ALL its rows, whatever order the nodes answer in; ranking happens after the reduce and before the page
+\* (for every limit the node requests may carry: the groups that reach the coordinator depend on it alone)
+PageLawAt(by, so, lim) ==
+  LET red == Gathered(rows, by, lim, so)
+      pgs == { pg \in Pages : NodeLimit(pg) = lim }
+      g == Cardinality(PKeys(rows, by))
+  IN /\ \A f \in Funcs :
+          LET vals == [i \in 1..Len(red) |-> ReducedVal(f, red[i])] IN
+            \A pg \in pgs :
+              LET lo == pg[2] + 1
+                  hi == pg[2] + PageSize(Len(red), pg) IN
+                /\ hi - pg[2] = PageSize(g, pg)
+                /\ \A i, j \in lo..hi : i # j => red[i].key # red[j].key
+                /\ \A i \in lo..hi : vals[i] = Agg(f, ValuesOf(OfPKey(rows, by, red[i].key)))
+     /\ LET sums == [i \in 1..Len(red) |-> ReducedVal("SUM", red[i])]
+             want == SumsBy(rows, by) IN
+          \A pg \in pgs, m \in 1..MaxN, d \in {"top", "bottom"} :
+            Page(FirstN(sums, m, d), pg) = Page(FirstN(want, m, d), pg)
+PageLaw == \A by \in Bys, so \in ShardOrders, lim \in { NodeLimit(pg) : pg \in Pages } : PageLawAt(by, so, lim)
 =============================================================================
